@@ -51,7 +51,7 @@ func (e pEqZ) mapPolys(f func(*Poly) *Poly) Pred {
 	}
 	return simplifyEqZ(np)
 }
-func (e pLE) mapPolys(f func(*Poly) *Poly) Pred  { return pLEof(f(e.a), f(e.b)) }
+func (e pLE) mapPolys(f func(*Poly) *Poly) Pred { return pLEof(f(e.a), f(e.b)) }
 func (e pOdd) mapPolys(f func(*Poly) *Poly) Pred {
 	a := f(e.a)
 	if a.isConst() {
@@ -118,34 +118,36 @@ func (c pOr) smtRaw(q *big.Int, em *rawEmitter, vars map[int]bool) string {
 	return "(or " + strings.Join(parts, " ") + ")"
 }
 
-func (pTrue) smt(*big.Int, func(int) string) string     { return "true" }
-func (pTrue) eval(map[int]*big.Int, *big.Int) bool      { return true }
-func (pTrue) key() string                               { return "T" }
-func (pTrue) vars(map[int]bool)                         {}
-func (pFalse) smt(*big.Int, func(int) string) string    { return "false" }
-func (pFalse) eval(map[int]*big.Int, *big.Int) bool     { return false }
-func (pFalse) key() string                              { return "F" }
-func (pFalse) vars(map[int]bool)                        {}
+func (pTrue) smt(*big.Int, func(int) string) string       { return "true" }
+func (pTrue) eval(map[int]*big.Int, *big.Int) bool        { return true }
+func (pTrue) key() string                                 { return "T" }
+func (pTrue) vars(map[int]bool)                           {}
+func (pFalse) smt(*big.Int, func(int) string) string      { return "false" }
+func (pFalse) eval(map[int]*big.Int, *big.Int) bool       { return false }
+func (pFalse) key() string                                { return "F" }
+func (pFalse) vars(map[int]bool)                          {}
 func (e pEqZ) smt(q *big.Int, vn func(int) string) string { return "(= " + modTerm(e.p, q, vn) + " 0)" }
-func (e pEqZ) eval(a map[int]*big.Int, q *big.Int) bool { return e.p.eval(a, q).Sign() == 0 }
-func (e pEqZ) key() string                              { return "Z[" + e.p.key() + "]" }
-func (e pEqZ) vars(m map[int]bool)                      { e.p.varSet(m) }
+func (e pEqZ) eval(a map[int]*big.Int, q *big.Int) bool   { return e.p.eval(a, q).Sign() == 0 }
+func (e pEqZ) key() string                                { return "Z[" + e.p.key() + "]" }
+func (e pEqZ) vars(m map[int]bool)                        { e.p.varSet(m) }
 func (e pLE) smt(q *big.Int, vn func(int) string) string {
 	return "(<= " + modTerm(e.a, q, vn) + " " + modTerm(e.b, q, vn) + ")"
 }
-func (e pLE) eval(a map[int]*big.Int, q *big.Int) bool { return e.a.eval(a, q).Cmp(e.b.eval(a, q)) <= 0 }
-func (e pLE) key() string                              { return "LE[" + e.a.key() + "|" + e.b.key() + "]" }
-func (e pLE) vars(m map[int]bool)                      { e.a.varSet(m); e.b.varSet(m) }
+func (e pLE) eval(a map[int]*big.Int, q *big.Int) bool {
+	return e.a.eval(a, q).Cmp(e.b.eval(a, q)) <= 0
+}
+func (e pLE) key() string         { return "LE[" + e.a.key() + "|" + e.b.key() + "]" }
+func (e pLE) vars(m map[int]bool) { e.a.varSet(m); e.b.varSet(m) }
 func (e pOdd) smt(q *big.Int, vn func(int) string) string {
 	return "(= (mod " + modTerm(e.a, q, vn) + " 2) 1)"
 }
-func (e pOdd) eval(a map[int]*big.Int, q *big.Int) bool { return e.a.eval(a, q).Bit(0) == 1 }
-func (e pOdd) key() string                              { return "O[" + e.a.key() + "]" }
-func (e pOdd) vars(m map[int]bool)                      { e.a.varSet(m) }
+func (e pOdd) eval(a map[int]*big.Int, q *big.Int) bool   { return e.a.eval(a, q).Bit(0) == 1 }
+func (e pOdd) key() string                                { return "O[" + e.a.key() + "]" }
+func (e pOdd) vars(m map[int]bool)                        { e.a.varSet(m) }
 func (n pNot) smt(q *big.Int, vn func(int) string) string { return "(not " + n.x.smt(q, vn) + ")" }
-func (n pNot) eval(a map[int]*big.Int, q *big.Int) bool { return !n.x.eval(a, q) }
-func (n pNot) key() string                              { return "!" + n.x.key() }
-func (n pNot) vars(m map[int]bool)                      { n.x.vars(m) }
+func (n pNot) eval(a map[int]*big.Int, q *big.Int) bool   { return !n.x.eval(a, q) }
+func (n pNot) key() string                                { return "!" + n.x.key() }
+func (n pNot) vars(m map[int]bool)                        { n.x.vars(m) }
 
 func joinSMT(op string, xs []Pred, q *big.Int, vn func(int) string) string {
 	parts := make([]string, len(xs))
